@@ -927,14 +927,13 @@ class Message(ABC):
             elif other_val is PLACEHOLDER:
                 other_val = other._get_field_default(field_name)
 
-            if self_val != other_val:
-                # We consider two nan values to be the same for the
-                # purposes of comparing messages (otherwise a message
-                # is not equal to itself), also inside repeated and map fields
-                if _equal_or_both_nan(self_val, other_val):
-                    continue
-                else:
-                    return False
+            # We consider two nan values to be the same for the
+            # purposes of comparing messages (otherwise a message
+            # is not equal to itself), also inside repeated and map fields.
+            # Every value is compared exactly once: comparing nested messages
+            # a second time after a first "unequal" doubles the work per level.
+            if not _equal_or_both_nan(self_val, other_val):
+                return False
 
         return True
 
